@@ -118,6 +118,10 @@ theorem dropped_only_by_own_fault_any (ss : Streams) (env : Nat → Env) (order 
     ReadAns.err ∈ (env sid).reads ∨ ReadAns.eof ∈ (env sid).reads ∨ ProcAns.fatal ∈ (env sid).procs :=
   Proofs.Inbound.dropped_only_by_own_fault_any ss env order sid s hs hgone
 
+theorem selectPoll_item_any (ss : Streams) (env : Nat → Env) (order : List Nat) (sid m : Nat)
+    (h : (selectPoll ss env order).2 = some (sid, m)) : sid ∈ order ∧ (ss.lookup sid).isSome = true :=
+  Proofs.Inbound.selectPoll_item_any ss env order sid m h
+
 /-- A dropped substream never forwards anything again. -/
 theorem gone_is_silent (ss : Streams) (env : Nat → Env) (order : List Nat) (sid m : Nat)
     (hgone : ss.lookup sid = none) : (selectPoll ss env order).2 ≠ some (sid, m) :=
@@ -155,6 +159,11 @@ theorem incoming_origin (h : CH) (hnd : Proofs.Inbound.Nodup h.streams) (env : E
     sid ∈ env.order ∧ ∃ s, h.streams.lookup sid = some s ∧
       (Inbound.poll s (env.inbound sid).reads (env.inbound sid).procs).2 = .item m :=
   Proofs.ConnHandler.incoming_origin h hnd env hord sid m hm
+
+theorem incoming_origin_any (h : CH) (env : Env) (sid m : Nat)
+    (hm : Out.ev (.incoming sid m) ∈ (poll h env).2) :
+    sid ∈ env.order ∧ (h.streams.lookup sid).isSome = true :=
+  Proofs.ConnHandler.incoming_origin_any h env sid m hm
 
 
 /-- No inbound substream and no server-side event can close the connection: only the client
